@@ -1,5 +1,6 @@
 import Driver.Loop
 import Midgard.Model.WriterFiles
+import Midgard.Model.WriterSta
 
 /-! Driver for C17 (text travels hex-encoded; `.` = empty, `-` = absent).
 
@@ -20,6 +21,9 @@ import Midgard.Model.WriterFiles
   c17 velfile <hextext,…> <0|1> <stations>    (solution, stamp, datum)
   c17 clufile <hextext,…> <hexkey,…>          (solution, stamp)
   c17 clurange <hextext,…> <hexkey,…>         the range predicate of `clu_file_roundtrip` → 1 | 0
+  c17 starecords <0|1> <hist> <hist> <hist>   TYPE 002 records for skip_firmware, receiver / antenna / eccentricity histories
+                                              (hist = from:to:cls,… in dictionary order, `[]` = empty) → from:to:r:a:e,… (indices
+                                              into the three histories) | []
   c17 crdparse <hexfile>   c17 cluparse <hexfile>     rows `|`-separated, values `;`-separated: f:<rat> | f:nan | u:<hex>
 -/
 namespace Driver.C17
@@ -128,7 +132,23 @@ def showFile : Option (List Char) → String
 def parseTexts? (s : String) : Option (List (List Char)) :=
   (parseList? (fun x => if x = "." then some "" else decodeHex? x) s).map fun l => l.map String.toList
 
+def parseEntry? (s : String) : Option Midgard.WriterSta.Entry :=
+  match s.splitOn ":" with
+  | [a, b, c] => do
+    let a ← a.toInt?; let b ← b.toInt?; let c ← c.toNat?
+    pure ⟨a, b, c⟩
+  | _ => none
+
+def showRecord (rcv ant ecc : Midgard.WriterSta.Hist) (r : Midgard.WriterSta.Record) : String :=
+  s!"{r.from_}:{r.to_}:{rcv.idxOf r.rcv}:{ant.idxOf r.ant}:{ecc.idxOf r.ecc}"
+
 def handle : List String → Option String
+  | ["c17", "starecords", sf, rcv, ant, ecc] => do
+    let sf ← parseBool? sf
+    let rcv ← parseList? parseEntry? rcv
+    let ant ← parseList? parseEntry? ant
+    let ecc ← parseList? parseEntry? ecc
+    pure (showList (showRecord rcv ant ecc) (Midgard.WriterSta.staRecords sf rcv ant ecc))
   | ["c17", "crdfile", texts, nan, sts] => do
     let ts ← parseTexts? texts
     let nan ← parseBool? nan
